@@ -44,8 +44,32 @@ def _reach_funcs(names):
     return {k: table[k] for k in names}
 
 
+def gen_prelude(rng):
+    """Unjudged warm-up creations executed earlier in the same process (other piece lengths, multi-piece files
+    with non-power-of-two piece counts): process-lifetime state must not leak into the judged creation."""
+    if rng.random() < 0.5:
+        return []
+    ops = []
+    for _ in range(rng.choice([1, 1, 2])):
+        e = rng.choice([14, 15, 16, 17, 18])
+        k = rng.choice([3, 5, 6, 7])
+        ops.append({"route": rng.choice(["TorrentFileV2", "TorrentFileHybrid", "Assembler2", "Assembler3", "TorrentFile"]),
+                    "pl_exp": e, "size": k * 2 ** e - rng.choice([0, 1, 16384, 777]), "cseed": rng.randrange(1 << 30)})
+    return ops
+
+
+def run_prelude(case, scratch):
+    from ..harness import materialise_single
+    for k, op in enumerate(case.get("prelude") or []):
+        path = os.path.join(scratch, "pre", str(k), "w.bin")
+        materialise_single(path, op["size"], op["cseed"])
+        drive.create(op["route"], path, os.path.join(scratch, "pre", str(k), "w.torrent"),
+                     piece_length=2 ** op["pl_exp"], progress=0)
+
+
 def _setup(case, scratch, reach_names):
     env.install_enum_order(case.get("enum", "shuffle"), case.get("enum_seed", 0))
+    run_prelude(case, scratch)
     tree = case["tree"]
     base = os.path.join(scratch, "in")
     root = os.path.join(base, tree["name"])
@@ -69,6 +93,7 @@ def _gen_common(rng, tier, routes, **treekw):
         "tree": tree, "pl_exp": exp, "pl": None if auto else _pl_form(rng, exp),
         "route": rng.choice(routes), "progress": rng.choice([0, 1, 2]),
         "enum": rng.choice(["sorted", "shuffle", "reverse"]), "enum_seed": rng.randrange(1000),
+        "prelude": gen_prelude(rng),
     }
 
 
@@ -192,6 +217,8 @@ class C02:
         classes = sorted({_v2_file_class(f[1], pl) for f in case["tree"]["files"]})
         nontrivial = any(c != "bpow2/ppow2/full/" for c in classes)
         counters["creator_" + r] = 1
+        if case.get("prelude"):
+            counters["cases_with_in_process_prelude"] = 1
         return {"violations": viol, "sig": [r, classes, case["pl_exp"]], "nontrivial": nontrivial,
                 "counters": counters, "reach": reach.collect(),
                 "sample": {"files": [[f[0], f[1]] for f in case["tree"]["files"][:10]], "piece_length": pl,
@@ -342,7 +369,7 @@ class C10:
         if rng.random() < 0.55:
             return {"kind": "hashers", "pl_exp": exp, "size": gen.pick_size(rng, pl) or rng.choice([1, pl, pl + 1]),
                     "cseed": rng.randrange(1 << 30), "progress": rng.choice([0, 1, 2]),
-                    "pad": rng.random() < 0.8}
+                    "pad": rng.random() < 0.8, "prelude": gen_prelude(rng)}
         c = _gen_common(rng, tier, ["v2pair", "hybridpair"])
         c["kind"] = "creators"
         c["opts"] = {}
@@ -368,6 +395,7 @@ class C10:
             path = os.path.join(scratch, "in", "f.bin")
             from ..harness import materialise_single
             materialise_single(path, case["size"], case["cseed"])
+            run_prelude(case, scratch)
             reach = env.Reach()
             reach.start(_reach_funcs(["HasherV2.process_file", "HasherV2._calculate_root",
                                       "HasherHybrid.process_file", "HasherHybrid._pad_remaining",
